@@ -27,10 +27,8 @@ TRUSTED_BASE = [
     "final working tableau generates the group of |0..0>'), C02.solver_complete / solver_complete_stabilizer (completeness: for every graph on >= 1 vertex without "
     "isolated vertex / every stabilizer target without product qubit the model returns and hfinal holds), C02.solve_correct (both together) and C02.validator_sound, "
     "on top of the C07/C01 tableau semantics and the C03 echelon/height theorems",
-    "C02.solve_sound_unconditional / solve_returns_correct remove hfinal (whenever the model returns, its circuit is correct) under the C11 theorem "
-    "InverseCircuitEndsInZero (what inverse_circuit returns is the zero tableau)",
-    "the completeness theorems carry ONE explicit hypothesis, InverseCircuitComplete (inverse_circuit reaches |0..0> on every valid stabilizer tableau; property C11, "
-    "proved on its own branch and discharged when the branches are merged)",
+    "C02.solve_sound_unconditional / solve_returns_correct remove hfinal (whenever the model returns, its circuit is correct); no theorem of the property file "
+    "carries a hypothesis on inverse_circuit any more: C11's inverseCircuit_complete / inverseCircuit_isZero are imported",
     "correspondence: the solver model is compared exactly (per-wire operation sequences) with the implementation on every generated target; "
     "hfinal's executable form (driver flag zero=1) is evaluated on every input; the two tableau-rewriting helpers (_time_reversed_measurement, "
     "_add_photon_absorption) and inverse_circuit are additionally compared with their models on synthetic inputs; targets reaching rarely taken "
@@ -127,7 +125,7 @@ def check_graph(ctx, res, drv, adj, rep, backend, SC, DC, pending, order=None, l
     want = graph_canon(adj, ne)
     # history: the property holds for EVERY call of solve(); the same solver object is asked again (and a third time after its result
     # was read): it must return, and return the same circuit (a different one is validated on its own)
-    if repeat or (repeat is None and ne + np_ <= 14 and (n <= 3 or ctx.rng.random() < (0.25 if ctx.quick else 0.5))):
+    if repeat or (repeat is None and ne + np_ <= 14 and (n <= 3 or ctx.rng.random() < (0.12 if ctx.quick else 0.3))):
         res.count("branches", "history:repeated-solve")
         for k in (2, 3):
             try:
@@ -298,9 +296,9 @@ def run(ctx, budget=1.0):
         if len(pending) > 40:
             flush(res, drv, pending)
     res.extra["light_targets"] = n_light
-    guided_targets(ctx, res, drv, SC, DC, pending, int((1400 if ctx.quick else 12000) * budget))
+    guided_targets(ctx, res, drv, SC, DC, pending, int((900 if ctx.quick else 12000) * budget))
     helper_correspondence(ctx, res, drv, int((80 if ctx.quick else 1500) * budget))
-    solver_helper_correspondence(ctx, res, drv, SC, int((1000 if ctx.quick else 20000) * budget))
+    solver_helper_correspondence(ctx, res, drv, SC, int((600 if ctx.quick else 10000) * budget))
     if not ctx.quick:
         for _ in range(20):
             n = rng.randrange(14, 31)
@@ -399,7 +397,7 @@ def guided_targets(ctx, res, drv, SC, DC, pending, n_cand):
         for tg in sorted(tags):
             if not tg.endswith(":-"):
                 continue
-            cap = (6 if ctx.quick else 80) if tg == "trm:Z1:-" else (2 if ctx.quick else 6)
+            cap = (4 if ctx.quick else 80) if tg == "trm:Z1:-" else (1 if ctx.quick else 6)
             if per_tag.get(tg, 0) < cap:
                 per_tag[tg] = per_tag.get(tg, 0) + 1
                 want = True
